@@ -107,9 +107,9 @@ impl Prop for C03 {
         let base = corpus_units(
             &Space {
                 k: if thorough { 1 } else { 0 },
-                ctx_limit: if thorough { 3 } else { 1 },
+                ctx_limit: 1,
                 layouts: if thorough { vec![Layout::L0, Layout::LAll] } else { vec![Layout::L0] },
-                style_editions: if thorough { vec![2015, 2024] } else { vec![2024] },
+                style_editions: vec![2024],
                 cfg_mode: CfgMode::DefaultOnly,
                 cfg_ctx_limit: 0,
                 l1: false,
